@@ -735,24 +735,37 @@ func runRegion(d Desc, cw *hlib.CaseWriter) {
 				fail("route-region:not-due", fmt.Sprintf("ETX %d is handed down by block %d (zone %v) where it is not due (never rolled up on this chain, not of a kind a region may route, or for a later block); chain %s", id, b.id, b.loc, pathString(path)))
 			}
 		}
-		// order within one source: ETXs emitted by the same zone block keep their emission order
+		// order within one source: ETXs that reach the zone through the same bundle keep the order of that
+		// bundle.  A source is the sub rollup entry of one zone block (only its standard ETXs travel this way)
+		// or the inbound set prime handed down with one prime-order block.  A coinbase / conversion ETX of a
+		// zone block comes back through prime, i.e. through ANOTHER source than the standard ETXs emitted
+		// beside it: no relative order is promised between the two.
 		pos := map[int]int{}
 		for i, tx := range got.list {
 			if id, known := idOfHash[tx.Hash()]; known {
 				pos[id] = i
 			}
 		}
+		checkSource := func(src []*rEtx, viaRollup bool, what string) {
+			last := -1
+			for _, e := range src {
+				if viaRollup && !e.standard() {
+					continue
+				}
+				if p, in := pos[e.id]; in && wantCount[e.id] == 1 && gotCount[e.id] == 1 {
+					if p < last {
+						fail("route-region:order", fmt.Sprintf("ETXs of %s are handed down by block %d in another order than in that bundle", what, b.id))
+					}
+					last = p
+				}
+			}
+		}
 		for _, a := range path {
 			for _, z := range a.manifest {
-				last := -1
-				for _, e := range z.etxs {
-					if p, in := pos[e.id]; in && wantCount[e.id] == 1 && gotCount[e.id] == 1 {
-						if p < last {
-							fail("route-region:order", fmt.Sprintf("ETXs emitted by one zone block are handed down by block %d in another order than emitted", b.id))
-						}
-						last = p
-					}
-				}
+				checkSource(z.etxs, true, "one zone block")
+			}
+			if a.order == common.PRIME_CTX {
+				checkSource(a.inbound, false, "one inbound set handed down by prime")
 			}
 		}
 	}
